@@ -53,8 +53,9 @@ const BE_UNREFINED_SMALL: f64 = 1e-9;
 const BE_UNREFINED_LARGE: f64 = 1e-9;
 /// linear / quadratic closed forms are backward stable: rounding level
 const BE_QUADRATIC: f64 = 1e-12;
-/// Cardano's formula on coefficients of mixed scale loses digits (worst observed 7.7e-10 on the wide-scale lattice)
-const BE_CARDANO: f64 = 1e-7;
+/// Cardano's formula alone loses up to half the digits (7.7e-10 on the wide-scale lattice, 5e-9 on a clustered cubic found by the
+/// second bug hunt); since 956dbce its values are always polished, so the cubic is held to the same standard as the other degrees
+const BE_CARDANO: f64 = 1e-12;
 const MATCH_TOL: f64 = 1e-6;
 
 fn judge_roots(coef: &[C], got: &[C], refine: bool, has_large: bool, acc: &mut Acc, tag: &'static str) -> Result<(), String> {
